@@ -493,6 +493,11 @@ func (d *cfgDynamic) toConfig(opts *options) (cfg *Config, err error) {
 }
 
 func (d *cfgDynamic) withValue(err *error, opts *options, fn func(value)) {
+	// references resolved for this value stay active until the value has been used
+	parentFields := opts.activeFields
+	opts.activeFields = newFieldSet(parentFields)
+	defer func() { opts.activeFields = parentFields }()
+
 	var v value
 	if v, *err = d.getValue(opts); *err == nil {
 		fn(v)
